@@ -614,6 +614,11 @@ func (w *worker) runC20(p *harness.Pkg, t *tape.Tape, logOn bool) *verdict {
 		si = t.Choose(6, "concurrency")
 	}
 	n := c20Sizes[si]
+	if p.NoRace && n > 8 {
+		// goroutines / channels of the package's own: every step costs a goroutine dump while a task is blocked in one
+		// of its real operations, so the large configurations are left to packages without them
+		n = 8
+	}
 	for i := 0; i < n; i++ {
 		var rp harness.ReqPlan
 		switch k := t.Choose(8, "kind"); {
